@@ -190,7 +190,7 @@ fn judge(c: &DCase, o: &Outcome) -> Verdict {
 pub fn check(tier: Tier) -> i32 {
     let ctx = Ctx::new("C02", tier);
     replay_corpus::<DCase, _>(&ctx, run_case);
-    drive(&ctx, "main", tier.pick(6000, 60000), || dcase_strategy(profile()), run_case);
+    drive(&ctx, "main", tier.pick(8000, 60000), || dcase_strategy(profile()), run_case);
     cleanup_process_scratch();
     ctx.finish(
         "exploration",
